@@ -21,7 +21,10 @@ CHECKS = {
               'runtime monitor over real run_mapping / '
               'run_type_assignment_on_h5ad executions: reference-model '
               '(parent-pointer taxonomy) oracle on every result record; '
-              'worker completion order perturbed by a Process proxy',
+              'worker completion order perturbed by a Process proxy; forced '
+              'classes: slash labels, chunk-name orderings (100 cells / '
+              'chunk 5), a root with 330 children mapped in one chunk, '
+              'float32 / float16 / integer-typed queries',
               'Held on every generated execution: all 470 tree shapes (<=4 '
               'levels, <=6 leaves) x flatten / each droppable level in the '
               'thorough tier plus random larger inputs.',
@@ -118,7 +121,10 @@ CHECKS = {
               'and serialisation of the real TaxonomyTree compared with a '
               'parent-pointer model; bounded-exhaustive workload (all 470 '
               'shapes) + random trees; one-edit malformed variants must be '
-              'rejected (or behave as the tree they denote)',
+              'rejected (or behave as the tree they denote) through the dict, '
+              'string, JSON-file and statistics-file entry points, with and '
+              'without reference cells; transformations also on trees that '
+              'were never serialised',
               'Exhaustive over all shapes with <=4 levels and <=6 leaves in '
               'the thorough tier, sampled beyond.',
               'DESIGN.md section 2 C10', _BASE_NOTE),
@@ -192,7 +198,7 @@ CHECKS = {
               'annotations, Ensembl / symbol / unknown gene names) with the '
               'input\'s sha256 taken before and after, output read back with '
               'anndata and compared entry by entry; the four rejection '
-              'classes probed',
+              'classes probed with and without a log object',
               'Every entry of every rewritten file; boundary values aimed '
               'at by the generator.',
               'DESIGN.md section 2 C16', _BASE_NOTE),
@@ -238,7 +244,9 @@ CHECKS = {
               'inside directories whose names carry unique tokens and '
               'punctuation; every string of config / log in the JSON, the '
               'HDF5 metadata and the log file scanned for the tokens and for '
-              'absolute path-like substrings that exist on the host',
+              'absolute path-like substrings that exist on the host; directory '
+              'layouts incl. paths beyond 255 characters and un-normalised '
+              'spellings (// and /./)',
               'All recorded strings of every generated run scanned; counts '
               'of strings and sanitised path lines in the evidence.',
               'DESIGN.md section 2 C20', _BASE_NOTE),
